@@ -34,7 +34,11 @@ func (c *c02) lfOf(ru *fw.Rule, full, short string) *c02Lf {
 		ru.Undecided(short+":anchor", "", "function "+full+" not found")
 		return &c02Lf{c: c, ru: ru, name: short, dead: true}
 	}
-	return &c02Lf{c: c, ru: ru, name: short, fn: fn, env: fw.NewSxEnv(fn), pos: c.p.Rel(fn.Pos()), al: map[ssa.Value]string{}}
+	env := fw.NewSxEnv(fn)
+	env.InlinePure = true
+	env.KeepNarrowing = true
+	env.NoInline = func(f *ssa.Function) bool { return c02LeafNames[f.Name()] }
+	return &c02Lf{c: c, ru: ru, name: short, fn: fn, env: env, pos: c.p.Rel(fn.Pos()), al: map[ssa.Value]string{}}
 }
 
 func (l *c02Lf) alias(v ssa.Value, name string) {
@@ -90,7 +94,7 @@ func (l *c02Lf) args(c *ssa.Call) string {
 var c02BufForms = []string{
 	"(call (*pkg/decode.D).SharedReadBuf recv (call pkg/bitio.BitsByteCount p0))",
 	"(slice (call (*pkg/decode.D).SharedReadBuf recv (call pkg/bitio.BitsByteCount p0)) 0 (call pkg/bitio.BitsByteCount p0) _)",
-	"(slice (call (*pkg/decode.D).SharedReadBuf recv (call pkg/bitio.BitsByteCount p0)) _ (call pkg/bitio.BitsByteCount p0) _)",
+	"(slice (call (*pkg/decode.D).SharedReadBuf recv (call pkg/bitio.BitsByteCount p0)) 0 (call pkg/bitio.BitsByteCount p0) _)",
 	"(make []byte (call pkg/bitio.BitsByteCount p0) (call pkg/bitio.BitsByteCount p0))",
 }
 
@@ -195,6 +199,14 @@ func (l *c02Lf) successValues() ([]string, []c02LfRet) {
 	var rs []c02LfRet
 	for _, r := range l.returns() {
 		if len(r.res) == 1 || (len(r.res) >= 2 && r.res[len(r.res)-1] == "nil") {
+			vals = append(vals, r.res[0])
+			rs = append(rs, r)
+			continue
+		}
+		// `return f(v), err` with the error of a call handed on unexamined: the value is what
+		// the caller sees whenever that error is nil
+		if e := r.res[len(r.res)-1]; len(r.res) == 2 && strings.HasPrefix(e, "(#") && c02IsErrorType(r.raw[1].Type()) &&
+			!l.env.HasGuard(r.b, "+(!= "+e+" nil)") && !l.env.HasGuard(r.b, "-(== "+e+" nil)") && !strings.HasPrefix(r.res[0], "(#0 "+e[4:]) {
 			vals = append(vals, r.res[0])
 			rs = append(rs, r)
 		}
@@ -344,7 +356,7 @@ func (c *c02) leafRules() {
 // C02.leaf
 
 func (c *c02) leafFacts() {
-	ru := c.r.Rule("C02.leaf", "each hand-written leaf reader / primitive reads exactly the bits its parameters say (argument normal forms of its read calls), byte-reverses under little endian only, and returns the contract's function of what was read (two's complement, 2^-fBits scaling, big.Int alignment shift, unary count, text slice bounds)", 60)
+	ru := c.r.Rule("C02.leaf", "each hand-written leaf reader / primitive reads exactly the bits its parameters say (argument normal forms of its read calls), byte-reverses under little endian only, and returns the contract's function of what was read (two's complement, 2^-fBits scaling, big.Int alignment shift, unary count, text slice bounds); conditional steps (byte reversal, sign correction, NUL cut, fixed-size choice, buffer growth, match exit of the terminator search) are taken exactly under their contract's condition and under no further one; truncating conversions and shifts narrower than 64 bits are part of the compared forms", 75)
 
 	// tryUEndian
 	{
@@ -355,6 +367,7 @@ func (c *c02) leafFacts() {
 		l.argsAre("rev-args", rev, "p0 (#0 R)", "byte reversal operands (width, value)")
 		if rev != nil {
 			l.guarded("rev-le", rev.Block(), "byte reversal must happen exactly for little endian", c02LeGuard(c, "p1")...)
+			l.onlyWhen("rev-le-only", rev.Block(), "byte reversal must happen for every little endian read", nil, c02LeGuard(c, "p1")...)
 		}
 		l.successSetIs("value", "value returned", "(#0 R)", "REV")
 	}
@@ -367,6 +380,7 @@ func (c *c02) leafFacts() {
 		l.argsAre("rev-args", rev, "p0 (#0 R)", "byte reversal operands (width, value)")
 		if rev != nil {
 			l.guarded("rev-le", rev.Block(), "byte reversal must happen exactly for little endian", c02LeGuard(c, "p2")...)
+			l.onlyWhen("rev-le-only", rev.Block(), "byte reversal must happen for every little endian read", nil, c02LeGuard(c, "p2")...)
 		}
 		l.successIs("value", "(/ (conv float64 phi{(#0 R) | REV}) (conv float64 (<< 1 p1)))", "fixed point value = integer / 2^fBits")
 	}
@@ -376,11 +390,18 @@ func (c *c02) leafFacts() {
 		r := l.one(c02DM+"tryUEndian", "R")
 		l.argsAre("read", r, "recv p0 p1", "unsigned read (width, endian)")
 		neg := "-1 + -1*(& (^ (#0 R)) -1 + (<< 1 p0))"
-		l.successSetIs("value", "two's complement value", neg, "(#0 R)")
-		sign := "(> (& (#0 R) (<< 1 -1 + p0)) 0)"
-		sign2 := "(!= (& (#0 R) (<< 1 -1 + p0)) 0)"
-		l.choiceGuarded("neg-when-sign", neg, "negative branch", "+"+sign, "+"+sign2)
-		l.choiceGuarded("pos-when-nosign", "(#0 R)", "non-negative branch", "-"+sign, "-"+sign2)
+		if vals, _ := l.successValues(); !l.dead && strings.Join(vals, " || ") == "(call internal/mathx.TwosComplement p0 (#0 R))" {
+			// delegated to mathx.TwosComplement, which is held to the same contract below
+			l.ru.Ok(l.name+":value", l.pos, "mathx.TwosComplement(nBits, n)")
+			l.ru.Ok(l.name+":neg-when-sign", l.pos, "see TwosComplement:neg-when-sign")
+			l.ru.Ok(l.name+":pos-when-nosign", l.pos, "see TwosComplement:pos-when-nosign")
+		} else {
+			l.successSetIs("value", "two's complement value", neg, "(#0 R)")
+			sign := "(> (& (#0 R) (<< 1 -1 + p0)) 0)"
+			sign2 := "(!= (& (#0 R) (<< 1 -1 + p0)) 0)"
+			l.choiceGuarded("neg-when-sign", neg, "negative branch", "+"+sign, "+"+sign2)
+			l.choiceGuarded("pos-when-nosign", "(#0 R)", "non-negative branch", "-"+sign, "-"+sign2)
+		}
 	}
 	// mathx.TwosComplement (same contract, anchored in num.go)
 	{
@@ -408,6 +429,7 @@ func (c *c02) leafFacts() {
 		l.argsAre("rev-args", rev, "BUF", "bytes reversed")
 		if rev != nil {
 			l.guarded("rev-le", rev.Block(), "byte reversal must happen exactly for little endian", c02LeGuard(c, "p1")...)
+			l.onlyWhen("rev-le-only", rev.Block(), "byte reversal must happen for every little endian read", nil, c02LeGuard(c, "p1")...)
 		}
 		if rsh := l.one("(*math/big.Int).Rsh", ""); rsh != nil {
 			// the integer being built: big.Int methods return their receiver, so every call in the
@@ -416,8 +438,8 @@ func (c *c02) leafFacts() {
 			if _, ok := root.(*ssa.Alloc); ok {
 				l.alias(root, "N")
 				fw.EachInstr(l.fn, func(ins ssa.Instruction) {
-					if cl, ok := ins.(*ssa.Call); ok && strings.HasPrefix(fw.SxCallee(cl.Common()), "(*math/big.Int).") && len(cl.Common().Args) > 0 && c02BigRoot(cl.Common().Args[0]) == root {
-						l.alias(cl, "N")
+					if cl, ok := ins.(*ssa.Call); ok && strings.HasPrefix(fw.SxCallee(cl.Common()), "(*math/big.Int).") && len(cl.Common().Args) > 0 && c02BigRoot(cl.Common().Args[0]) == root && types.Identical(cl.Type(), rsh.Type()) {
+						l.alias(cl, "N") // the methods that return their receiver (not Bit, Sign, ...)
 					}
 				})
 			}
@@ -436,6 +458,7 @@ func (c *c02) leafFacts() {
 				l.argsAre("signed-args", sgn, "N BUF", "signed conversion operands")
 				if sgn != nil {
 					l.guarded("signed-when-sign", sgn.Block(), "two's complement conversion must be used exactly for signed reads", "+p2")
+					l.onlyWhen("signed-only", sgn.Block(), "two's complement conversion must be used for every signed read", nil, "+p2")
 					l.ru.Check(c02BlockReaches(sgn.Block(), rsh.Block()) && !c02BlockReaches(rsh.Block(), sgn.Block()), l.name+":order-signed", l.pos, "conversion precedes the shift", "sign conversion must precede the alignment shift (sign is the top bit of the padded buffer)")
 					if rev != nil {
 						l.ru.Check(c02BlockReaches(rev.Block(), sgn.Block()), l.name+":order-rev-signed", l.pos, "reversal precedes conversion", "byte reversal must precede the conversion")
@@ -453,6 +476,19 @@ func (c *c02) leafFacts() {
 				} else {
 					sub := subs[0]
 					l.guarded("signed-when-sign", sub.Block(), "two's complement correction must be applied exactly for signed reads", "+p2")
+					l.onlyWhen("signed-only", sub.Block(), "two's complement correction must be applied to every signed read with the sign bit set", func(g string) bool {
+						if strings.Contains(g, "(*math/big.Int).Bit ") {
+							return true // which bit is tested: C02.twos
+						}
+						// a width check that holds for every width >= 1 excludes nothing
+						for _, v := range []int64{1, 2, 7, 8, 9, 63, 64, 65, 512} {
+							r, ok := fw.SxEval(g[1:], map[string]int64{"p0": v})
+							if !ok || (r != 0) != (g[0] == '+') {
+								return false
+							}
+						}
+						return true
+					}, "+p2")
 					l.ru.Check(l.env.Of(sub.Common().Args[0]) == "N" && l.env.Of(sub.Common().Args[1]) == "N", l.name+":signed-args", l.pos, "n = n - modulus", "the modulus must be subtracted from the integer being built")
 					l.ru.Check(c02BlockReaches(rsh.Block(), sub.Block()) && (rsh.Block() != sub.Block() || c02InstrBefore(rsh, sub)), l.name+":order-signed", l.pos, "shift precedes the correction", "with the sign bit tested at nBits-1 the correction must follow the alignment shift")
 				}
@@ -470,16 +506,17 @@ func (c *c02) leafFacts() {
 		if lsh != nil && sub != nil {
 			l.eq("modulus", l.env.Of(lsh.Common().Args[1])+" << "+l.env.Of(lsh.Common().Args[2]), "g:mathx.BigIntOne << 8*(len p1)", "two's complement modulus 2^(8*len(buf))")
 			l.argsAre("sub", sub, "p0 p0 M", "n = n - 2^(8*len)")
-			l.guarded("sub-when-msb", sub.Block(), "modulus subtracted exactly when the top bit of buf[0] is set", "+(> (& (idx p1 0) 128) 0)", "+(!= (& (idx p1 0) 128) 0)", "+(>= (idx p1 0) 128)")
+			c02MsbGuarded(l, sub.Block())
 			if set != nil {
 				l.ru.Check(c02BlockReaches(set.Block(), sub.Block()) || set.Block() == sub.Block(), l.name+":order", l.pos, "SetBytes precedes Sub", "SetBytes must precede the subtraction")
 			}
 		}
-		var vals []string
+		vals := map[string]bool{}
 		for _, r := range l.returns() {
-			vals = append(vals, r.res[0])
+			// big.Int methods return their receiver
+			vals[l.env.Of(c02BigRoot(r.raw[0]))] = true
 		}
-		l.eq("value", strings.Join(vals, " || "), "p0", "returned integer")
+		l.eq("value", strings.Join(fw.SortedKeys(vals), " || "), "p0", "returned integer")
 	}
 	// bigint constant
 	{
@@ -503,8 +540,6 @@ func (c *c02) leafFacts() {
 	{
 		l := c.lfOf(ru, "pkg/decode.ReverseBytes", "ReverseBytes")
 		if !l.dead {
-			i := "phi{-1 + (/ (len p0) 2) | -1 + @0}"
-			j := "-1 + (len p0) + -1*" + i
 			var stores []string
 			fw.EachInstr(l.fn, func(ins ssa.Instruction) {
 				if st, ok := ins.(*ssa.Store); ok {
@@ -512,16 +547,30 @@ func (c *c02) leafFacts() {
 				}
 			})
 			sort.Strings(stores)
-			want := []string{"(&idx p0 " + i + ") <- (idx p0 " + j + ")", "(&idx p0 " + j + ") <- (idx p0 " + i + ")"}
-			sort.Strings(want)
-			l.eq("swap", strings.Join(stores, " ; "), strings.Join(want, " ; "), "a[i] and a[len-1-i] are exchanged for i = len/2-1 .. 0")
 			conds := []string{}
 			fw.EachInstr(l.fn, func(ins ssa.Instruction) {
 				if f, ok := ins.(*ssa.If); ok {
 					conds = append(conds, l.env.Of(f.Cond))
 				}
 			})
-			l.eq("loop", strings.Join(conds, " ; "), "(>= "+i+" 0)", "loop runs while i >= 0")
+			// the index runs over the first half, downwards from len/2-1 to 0 or upwards from 0 to len/2-1
+			type form struct{ i, cond, what string }
+			forms := []form{
+				{"phi{-1 + (/ (len p0) 2) | -1 + @0}", "(>= %s 0)", "i = len/2-1 .. 0"},
+				{"phi{0 | 1 + @0}", "(> (/ (len p0) 2) %s)", "i = 0 .. len/2-1"},
+			}
+			pick := forms[0]
+			for _, f := range forms {
+				if strings.Join(conds, " ; ") == fmt.Sprintf(f.cond, f.i) {
+					pick = f
+				}
+			}
+			i := pick.i
+			j := "-1 + (len p0) + -1*" + i
+			want := []string{"(&idx p0 " + i + ") <- (idx p0 " + j + ")", "(&idx p0 " + j + ") <- (idx p0 " + i + ")"}
+			sort.Strings(want)
+			l.eq("swap", strings.Join(stores, " ; "), strings.Join(want, " ; "), "a[i] and a[len-1-i] are exchanged for "+pick.what)
+			l.eq("loop", strings.Join(conds, " ; "), fmt.Sprintf(pick.cond, i), "loop covers exactly the first half ("+pick.what+")")
 		}
 	}
 	// tryBool
@@ -529,7 +578,12 @@ func (c *c02) leafFacts() {
 		l := c.lfOf(ru, c02DM+"tryBool", "tryBool")
 		r := l.one(c02DM+"TryUintBits", "R")
 		l.argsAre("read", r, "recv 1", "bits read")
-		l.successIs("value", "(== (#0 R) 1)", "boolean value")
+		{
+			vals, _ := l.successValues()
+			got := strings.Join(vals, " || ")
+			// one bit was read: == 1, != 0 and > 0 are the same predicate
+			l.ru.Check(got == "(== (#0 R) 1)" || got == "(== 1 (#0 R))" || got == "(!= (#0 R) 0)" || got == "(!= 0 (#0 R))" || got == "(> (#0 R) 0)", l.name+":value", l.pos, got, "boolean value: is "+got+", must be (== (#0 R) 1)")
+		}
 	}
 	// tryUnary
 	{
@@ -554,11 +608,16 @@ func (c *c02) leafFacts() {
 		l := c.lfOf(ru, c02DM+"tryTextNullLen", "tryTextNullLen")
 		r := l.one(c02DM+"TryBytesLen", "R")
 		l.argsAre("read", r, "recv p0", "bytes read")
-		cut := "(slice (#0 R) _ (call bytes.IndexByte (#0 R) 0) _)"
+		cut := "(slice (#0 R) 0 (call bytes.IndexByte (#0 R) 0) _)"
 		s := l.decodeIs("(conv string phi{(#0 R) | "+cut+"})", "p1")
 		if s != nil {
 			if cv, ok := s.Common().Args[1].(*ssa.Convert); ok {
 				l.edgeGuarded("cut-when-found", c02PhiOf(cv.X), cut, "truncation at the first NUL", "+"+c02SxC("!=", "-1", "(call bytes.IndexByte (#0 R) 0)"), "+(>= (call bytes.IndexByte (#0 R) 0) 0)", "-"+c02SxC("==", "-1", "(call bytes.IndexByte (#0 R) 0)"))
+				ix := "(call bytes.IndexByte (#0 R) 0)"
+				l.edgesExactly("cut-iff-found", c02PhiOf(cv.X), "the text is cut at the first NUL exactly when there is one", map[string][]string{
+					cut:      {"+" + c02SxC("!=", "-1", ix), "+(>= " + ix + " 0)", "-" + c02SxC("==", "-1", ix), "+(> " + ix + " -1)"},
+					"(#0 R)": {"-" + c02SxC("!=", "-1", ix), "-(>= " + ix + " 0)", "+" + c02SxC("==", "-1", ix), "-(> " + ix + " -1)", "+(> 0 " + ix + ")"},
+				})
 			}
 		}
 	}
@@ -580,8 +639,29 @@ func (c *c02) leafFacts() {
 		l.argsAre("read", r, "recv phi{(#0 L) | -1*p0 + p1}", "bytes read = prefix value, or fixedBytes - prefixLenBytes")
 		if r != nil {
 			l.edgeGuarded("fixed-when-set", c02PhiOf(r.Common().Args[1]), "-1*p0 + p1", "fixed length is used", "+(!= -1 p1)", "-(== -1 p1)")
+			l.edgesExactly("fixed-iff-set", c02PhiOf(r.Common().Args[1]), "bytes read: the prefix value exactly when no fixed size is given", map[string][]string{
+				"-1*p0 + p1": {"+(!= -1 p1)", "-(== -1 p1)"},
+				"(#0 L)":     {"-(!= -1 p1)", "+(== -1 p1)"},
+			})
 		}
-		l.decodeIs("(conv string (slice (#0 R) 0 phi{(#0 L) | (min (#0 L) -1*p0 + p1)} _))", "p2")
+		alt := ""
+		if !l.dead {
+			if s := l.calls("(*golang.org/x/text/encoding.Decoder).String"); len(s) == 1 {
+				if cv, ok := s[0].Common().Args[1].(*ssa.Convert); ok {
+					if sl, ok := cv.X.(*ssa.Slice); ok && sl.High != nil {
+						// min(lenBytes, readBytes) written with a branch: same obligation, decided on the edges
+						if l.minByBranches(c02PhiOf(sl.High), "(#0 L)", "-1*p0 + p1", "-(!= -1 p1)", "+(== -1 p1)") {
+							alt = "(conv string (slice (#0 R) 0 phi{(#0 L) | -1*p0 + p1} _))"
+						}
+					}
+				}
+			}
+		}
+		if alt != "" {
+			l.decodeIs(alt, "p2")
+		} else {
+			l.decodeIs("(conv string (slice (#0 R) 0 phi{(#0 L) | (min (#0 L) -1*p0 + p1)} _))", "p2")
+		}
 	}
 	// TryPeekFind (the terminator search of null-terminated text)
 	{
@@ -625,6 +705,7 @@ func (c *c02) leafFacts() {
 					l.ru.Check(step == 1, l.name+":step", l.pos, "next comparison at start + offset + seekBits", "after a mismatch the reader must seek to start + offset + seekBits (absolute)")
 					l.ru.Check(applied, l.name+":match", l.pos, "fn(v) decides a match", "the predicate must be applied to the value just read")
 					l.successSetIs("value", "offset of the match, or -1 when the bounded search ends", "-1", "CNT")
+					c02PeekFindMatch(l, u)
 				}
 			}
 		}
@@ -660,7 +741,7 @@ func (c *c02) leafFacts() {
 		}
 		vals, _ := l.successValues()
 		got := strings.Join(vals, " || ")
-		l.ru.Check(got == "BUF" || got == "(slice BUF _ _ _)", l.name+":value", l.pos, got, "returns "+got+", must return the buffer that was read into")
+		l.ru.Check(got == "BUF" || got == "(slice BUF 0 _ _)", l.name+":value", l.pos, got, "returns "+got+", must return the buffer that was read into")
 	}
 	{
 		l := c.lfOf(ru, c02DM+"TryUintBits", "TryUintBits")
@@ -668,7 +749,7 @@ func (c *c02) leafFacts() {
 		l.argsAre("read", r, "recv p0", "bits read")
 		vals, _ := l.successValues()
 		got := strings.Join(vals, " || ")
-		l.ru.Check(got == "(call pkg/bitio.Read64 (slice (#0 R) _ _ _) 0 p0)" || got == "(call pkg/bitio.Read64 (#0 R) 0 p0)", l.name+":value", l.pos, got, "returns "+got+", must be Read64(buf, 0, nBits) (the first nBits, MSB first)")
+		l.ru.Check(got == "(call pkg/bitio.Read64 (slice (#0 R) 0 _ _) 0 p0)" || got == "(call pkg/bitio.Read64 (#0 R) 0 p0)", l.name+":value", l.pos, got, "returns "+got+", must be Read64(buf, 0, nBits) (the first nBits, MSB first)")
 	}
 	{
 		l := c.lfOf(ru, c02DM+"SharedReadBuf", "SharedReadBuf")
@@ -677,7 +758,7 @@ func (c *c02) leafFacts() {
 			for _, r := range l.returns() {
 				vals = append(vals, r.res[0])
 			}
-			l.eq("value", strings.Join(vals, " || "), "(slice (load recv.readBuf) _ p0 _)", "returned slice has length n")
+			l.eq("value", strings.Join(vals, " || "), "(slice (load recv.readBuf) 0 p0 _)", "returned slice has length n")
 			var mk *ssa.MakeSlice
 			fw.EachInstr(l.fn, func(ins ssa.Instruction) {
 				if m, ok := ins.(*ssa.MakeSlice); ok {
@@ -689,6 +770,7 @@ func (c *c02) leafFacts() {
 			} else {
 				l.eq("grow-len", l.env.Of(mk.Len), "p0", "reallocated length")
 				l.guarded("grow-when-short", mk.Block(), "buffer is reallocated whenever it is shorter than n", "+(> p0 (len (load recv.readBuf)))", "-(>= (len (load recv.readBuf)) p0)")
+				l.onlyWhen("grow-only", mk.Block(), "buffer must be reallocated whenever it is shorter than n", nil, "+(> p0 (len (load recv.readBuf)))", "-(>= (len (load recv.readBuf)) p0)")
 			}
 		}
 	}
@@ -710,23 +792,41 @@ func (c *c02) leafFacts() {
 			if s == "(/ 7 + p0 8)" {
 				l.ru.Ok(l.name+":value", l.pos, s)
 			} else {
-				cs := map[string][]string{}
+				// every way of producing the result, with the guards it is produced under
+				var leaves []c02Leaf
 				for _, r := range l.returns() {
 					if ph := c02PhiOf(r.raw[0]); ph != nil && strings.HasPrefix(r.res[0], "phi{") {
-						for _, ed := range ph.Edges {
-							v := l.env.Of(ed)
-							gs, _ := l.env.EdgeGuards(ph, v)
-							cs[v] = append(gs, l.env.GuardSx(r.b)...)
+						for _, lf := range l.phiLeaves(ph, 0) {
+							leaves = append(leaves, c02Leaf{lf.val, append(lf.guards, l.env.GuardSx(r.b)...)})
 						}
 					} else {
-						cs[r.res[0]] = l.env.GuardSx(r.b)
+						leaves = append(leaves, c02Leaf{r.res[0], l.env.GuardSx(r.b)})
 					}
 				}
-				_, a := cs["(/ p0 8)"]
-				up, b := cs["1 + (/ p0 8)"]
-				l.ru.Check(a && b && len(cs) == 2, l.name+":value", l.pos, s, "BitsByteCount returns "+s+", must be ceil(nBits/8)")
-				if a && b {
-					l.ru.Check(c02HasAny(up, "+"+c02SxC("!=", "(% p0 8)", "0"), "+(> (% p0 8) 0)", "-"+c02SxC("==", "(% p0 8)", "0")), l.name+":roundup-when-rem", l.pos, "rounds up exactly when nBits%8 != 0", "rounding up is selected under "+strings.Join(up, " "))
+				rem := "(% p0 8)"
+				upG := []string{"+" + c02SxC("!=", rem, "0"), "+(> " + rem + " 0)", "-" + c02SxC("==", rem, "0")}
+				downG := []string{"-" + c02SxC("!=", rem, "0"), "-(> " + rem + " 0)", "+" + c02SxC("==", rem, "0")}
+				okForm, okUp, okDown := len(leaves) >= 2, true, true
+				under := ""
+				for _, lf := range leaves {
+					switch lf.val {
+					case "1 + (/ p0 8)":
+						if !c02HasAny(lf.guards, upG...) {
+							okUp = false
+							under = strings.Join(lf.guards, " ")
+						}
+					case "(/ p0 8)":
+						if !c02HasAny(lf.guards, downG...) {
+							okDown = false
+							under = strings.Join(lf.guards, " ")
+						}
+					default:
+						okForm = false
+					}
+				}
+				l.ru.Check(okForm, l.name+":value", l.pos, s, "BitsByteCount returns "+s+", must be ceil(nBits/8)")
+				if okForm {
+					l.ru.Check(okUp && okDown, l.name+":roundup-when-rem", l.pos, "rounds up exactly when nBits%8 != 0", "rounding is selected under "+under+", must round up exactly when nBits%8 != 0")
 				}
 			}
 		}
@@ -922,7 +1022,7 @@ func c02BoundsAt(env *fw.SxEnv, b *ssa.BasicBlock, param string) (lo, hi *int64)
 }
 
 func (c *c02) guardFacts() {
-	ru := c.r.Rule("C02.guard", "a request that cannot be satisfied is rejected with an error before anything is read, shifted or allocated: negative / too wide bit counts, zero-width signed or code-unit sizes, byte counts beyond the remaining input", 10)
+	ru := c.r.Rule("C02.guard", "a request that cannot be satisfied is rejected with an error before anything is read, shifted or allocated: negative / too wide bit counts, zero-width signed or code-unit sizes, byte counts beyond the remaining input; and no check rejects a request the property quantifies over (every width 1..64, float widths, code unit sizes, any length)", 22)
 	type g struct {
 		fn, short, sink, param string
 		lo                     *int64
@@ -989,6 +1089,7 @@ func (c *c02) guardFacts() {
 		l.guarded("left", cs[0].Block(), "a byte count larger than the remaining input must be an error before the buffer is allocated",
 			"-(> "+x.param+" "+left+")", "+(>= "+left+" "+x.param+")")
 	}
+	c.domainFacts(ru)
 }
 
 // ---------------------------------------------------------------------------
@@ -999,7 +1100,7 @@ var (
 )
 
 func (c *c02) lebFacts() {
-	ru := c.r.Rule("C02.leb", "LEB128: 7 payload bits per byte (mask, continuation bit and shift step agree), groups accumulate at the running shift, and a group whose payload cannot be represented in 64 bits is an error (the overflow guard constant is derived from 64 and the step; signed: last group must be a sign extension, sign bit of the last group extends the value)", 12)
+	ru := c.r.Rule("C02.leb", "LEB128: 7 payload bits per byte (mask, continuation bit and shift step agree), groups accumulate at the running shift, and a group whose payload cannot be represented in 64 bits is an error (the overflow guard constant is derived from 64 and the step; signed: last group must be a sign extension, sign bit of the last group extends the value whenever bits are left above it)", 13)
 	const W = 64
 	for _, signed := range []bool{false, true} {
 		name := "tryULEB128"
@@ -1015,6 +1116,14 @@ func (c *c02) lebFacts() {
 			continue
 		}
 		l.argsAre("byte", b, "recv", "one byte per group")
+		// U8 yields an 8-bit value (C02.family: U8 = tryUEndian(8, ..)), so byte(d.U8()) loses nothing
+		if refs := b.Referrers(); refs != nil {
+			for _, in := range *refs {
+				if cv, ok := in.(*ssa.Convert); ok && fw.SxStripConv(cv) == ssa.Value(b) {
+					l.alias(cv, "B")
+				}
+			}
+		}
 		// find the shift phi and the accumulator phi
 		var shift, acc *ssa.Phi
 		step := 0
@@ -1197,6 +1306,27 @@ func (c *c02) lebFacts() {
 				}
 				ru.Check(hasSign, name+":sign-bit", l.pos, fmt.Sprintf("sign bit of the last group is %d", signBit), fmt.Sprintf("sign extension must be applied exactly when bit %d (value %d) of the last group is set; guards: %s", step-1, signBit, strings.Join(gs, " ")))
 				_ = hasRoom
+				// every other condition of the extension may only depend on the shift and must hold
+				// wherever bits are left to extend (next shift < 64); beyond that -1<<shift is 0 anyway
+				room := ""
+				for _, x := range gs {
+					sb := c02SxC("&", strconv.Itoa(signBit), "B")
+					if x == "+"+c02SxC("==", sb, strconv.Itoa(signBit)) || x == "+"+c02SxC("!=", sb, "0") || !strings.Contains(x, "S") {
+						continue
+					}
+					for sh := 0; sh+step < W; sh += step {
+						r, ok := fw.SxEval(x[1:], map[string]int64{"S": int64(sh)})
+						if !ok {
+							room = "condition " + x + " of the sign extension is not a comparison of the shift with constants"
+							break
+						}
+						if (r != 0) != (x[0] == '+') {
+							room = fmt.Sprintf("after a last group at shift %d (next shift %d < %d) the sign is not extended because of %s: negative values of %d bytes come out positive", sh, sh+step, W, x, sh/step+1)
+							break
+						}
+					}
+				}
+				ru.Check(room == "", name+":sign-room", l.pos, "sign extended whenever bits are left above the last group", room)
 			}
 		}
 	}
@@ -1287,9 +1417,9 @@ func c02ErrPaths(l *c02Lf, header, errBlock *ssa.BasicBlock) ([][]c02Lit, string
 	var out [][]c02Lit
 	msg := ""
 	reNum := regexp.MustCompile(`\b\d+\b`)
-	var walk func(b *ssa.BasicBlock, path []c02Lit, depth int)
-	walk = func(b *ssa.BasicBlock, path []c02Lit, depth int) {
-		if depth > 12 {
+	var walk func(b, prev *ssa.BasicBlock, path []c02Lit, depth int)
+	walk = func(b, prev *ssa.BasicBlock, path []c02Lit, depth int) {
+		if depth > 16 {
 			msg = "guard too deep"
 			return
 		}
@@ -1297,30 +1427,55 @@ func c02ErrPaths(l *c02Lf, header, errBlock *ssa.BasicBlock) ([][]c02Lit, string
 			out = append(out, append([]c02Lit{}, path...))
 			return
 		}
+		if b == header && depth > 0 {
+			return // next iteration: the byte was accepted
+		}
 		if b != header {
 			for _, ins := range b.Instrs {
 				switch ins.(type) {
-				case *ssa.BinOp, *ssa.UnOp, *ssa.Convert, *ssa.ChangeType, *ssa.If, *ssa.DebugRef:
+				case *ssa.BinOp, *ssa.UnOp, *ssa.Convert, *ssa.ChangeType, *ssa.If, *ssa.DebugRef, *ssa.Phi, *ssa.Jump:
 				default:
 					return // not part of the guard: this path accepts the byte
 				}
 			}
+		}
+		if _, isJump := b.Instrs[len(b.Instrs)-1].(*ssa.Jump); isJump && b != header {
+			walk(b.Succs[0], b, path, depth+1)
+			return
 		}
 		ifi, ok := b.Instrs[len(b.Instrs)-1].(*ssa.If)
 		if !ok {
 			return
 		}
 		g := fw.Guard{Cond: ifi.Cond, True: true}.Normalize()
+		// a condition carried in a boolean variable: on this path it is the value that flowed in
+		if ph, isPhi := g.Cond.(*ssa.Phi); isPhi && ph.Block() == b && prev != nil && b != header {
+			for i, pb := range b.Preds {
+				if pb != prev {
+					continue
+				}
+				if k, isC := ph.Edges[i].(*ssa.Const); isC && k.Value != nil {
+					if (k.Value.ExactString() == "true") == g.True {
+						walk(b.Succs[0], b, path, depth+1)
+					} else {
+						walk(b.Succs[1], b, path, depth+1)
+					}
+					return
+				}
+				g = fw.Guard{Cond: ph.Edges[i], True: g.True}.Normalize()
+				break
+			}
+		}
 		sx := l.env.Of(g.Cond)
 		var ks []int
 		for _, m := range reNum.FindAllString(sx, -1) {
 			k, _ := strconv.Atoi(m)
 			ks = append(ks, k)
 		}
-		walk(b.Succs[0], append(path, c02Lit{sx, g.True, ks}), depth+1)
-		walk(b.Succs[1], append(path, c02Lit{sx, !g.True, ks}), depth+1)
+		walk(b.Succs[0], b, append(path, c02Lit{sx, g.True, ks}), depth+1)
+		walk(b.Succs[1], b, append(path, c02Lit{sx, !g.True, ks}), depth+1)
 	}
-	walk(header, nil, 0)
+	walk(header, nil, nil, 0)
 	if msg != "" {
 		return nil, msg
 	}
@@ -1334,7 +1489,7 @@ func c02ErrPaths(l *c02Lf, header, errBlock *ssa.BasicBlock) ([][]c02Lit, string
 // C02.float
 
 func (c *c02) floatReturns() (map[int]string, string, *c02Lf) {
-	ru := c.r.Rule("C02.float", "tryFEndian reads nBits bytes, reverses them for little endian only, and converts 16/32/64/80 bit patterns big-endian through mathx.Float16 / math.Float32frombits / math.Float64frombits / mathx.NewFloat80FromBytes; any other width is an error", 8)
+	ru := c.r.Rule("C02.float", "tryFEndian reads nBits bytes, reverses them for little endian only, and converts 16/32/64/80 bit patterns big-endian through mathx.Float16 / math.Float32frombits / math.Float64frombits / mathx.NewFloat80FromBytes; any other width is an error", 9)
 	l := c.lfOf(ru, c02DM+"tryFEndian", "tryFEndian")
 	if l.dead {
 		return nil, "", l
@@ -1388,6 +1543,7 @@ func (c *c02) floatFacts() {
 	l.argsAre("rev-args", rev, "(#0 R)", "bytes reversed")
 	if rev != nil {
 		l.guarded("rev-le", rev.Block(), "byte reversal must happen exactly for little endian", c02LeGuard(c, "p1")...)
+		l.onlyWhen("rev-le-only", rev.Block(), "byte reversal must happen for every little endian read", nil, c02LeGuard(c, "p1")...)
 	}
 	be := "g:binary.BigEndian (#0 R)"
 	want := map[int]string{
@@ -1570,6 +1726,9 @@ func (c *c02) errRule() {
 						if last == errV || e.Of(last) == "E" || strings.Contains(e.Of(last), "E") {
 							continue
 						}
+					}
+					if c02OnlyReturnedWith(use, errV, 0) {
+						continue
 					}
 					b := use.Block()
 					if ph, ok := use.(*ssa.Phi); ok {
